@@ -205,8 +205,14 @@ class Emitter:
                                for m in c.members)
         if not declared_default:
             self.w('  %s() : vid_(vtrace::next_id()) { ++vtrace::live(); }' % c.name)
-        self.w('  %s(const %s &o) : %svid_(vtrace::next_id()) { (void)o; ++vtrace::live(); }' % (
-            c.name, c.name, (cpp_type(c.parent, this) + '(o), ') if c.parent is not None else ''))
+        declared_copy = any(isinstance(m, M.Ctor) and m.template is None and len(m.args) == 1 and
+                            m.args[0].type.ptr == '&' and m.args[0].type.const and
+                            not m.args[0].type.ns and
+                            m.args[0].type.name in ('This', c.name) for m in c.members)
+        if not declared_copy:
+            self.w('  %s(const %s &o) : %svid_(vtrace::next_id()) { (void)o; ++vtrace::live(); }' % (
+                c.name, c.name,
+                (cpp_type(c.parent, this) + '(o), ') if c.parent is not None else ''))
         self.w('  %s &operator=(const %s &) { return *this; }' % (c.name, c.name))
         self.w('  %s~%s() { --vtrace::live(); }' % ('virtual ' if c.virtual else '', c.name))
         ent = qual
